@@ -110,6 +110,7 @@ type parOpts struct {
 	Pauses   int
 	PauseMid bool // directed: issue the pause only while a handler is parked mid-handler
 	Spin     int
+	RunUntil bool // serial engine only: drive the run through RunUntil(t) boundaries, then Run
 }
 
 // runPar executes one program and returns its log (ending with ret).
@@ -132,6 +133,12 @@ func runPar(p program, o parOpts, rng *rand.Rand) []map[string]any {
 	}
 	done := make(chan struct{})
 	go func() {
+		if se, ok := eng.(*timing.SerialEngine); ok && o.RunUntil {
+			// the time-boundary flow (mid-run checkpoints): a few RunUntil calls, then Run
+			for b := timing.VTimeInPicoSec(0); b < 6; b += 2 {
+				_ = se.RunUntil(b)
+			}
+		}
 		_ = eng.Run()
 		c.rec(map[string]any{"e": "ret"})
 		close(done)
@@ -260,7 +267,7 @@ func init() {
 		if err := json.Unmarshal(raw, &in); err != nil {
 			return nil, err
 		}
-		o := parOpts{Engine: in.Engine, Procs: in.Procs, Gated: in.Gated, Policy: in.Policy, Pauses: in.Pauses, PauseMid: in.PauseMid, Spin: in.Spin}
+		o := parOpts{Engine: in.Engine, Procs: in.Procs, Gated: in.Gated, Policy: in.Policy, Pauses: in.Pauses, PauseMid: in.PauseMid, Spin: in.Spin, RunUntil: in.RunUntil}
 		rng := rand.New(rand.NewSource(in.Seed))
 		f, err := os.Create(in.Out)
 		if err != nil {
@@ -313,6 +320,7 @@ type parOptsJSON struct {
 	Policy     string `json:"policy"`
 	Pauses     int    `json:"pauses"`
 	PauseMid   bool   `json:"pause_mid"`
+	RunUntil   bool   `json:"run_until"`
 	Spin       int    `json:"spin"`
 }
 
